@@ -1,4 +1,5 @@
 import WfModel.Lemmas.C05LexParse
+import WfModel.Lemmas.Unary
 /-!
 # C05 — the parser levels: spans stay inside the input, loops never run out of fuel,
 every successful entry point consumes input
@@ -184,6 +185,7 @@ theorem simpleL_good {env : PEnv} {lower : Option Level} (hl : LowerGood lower) 
         · exact good_errAt ((skipSpace_suffix r).trans (hs2.trans hs1)) (by nf)
   · split
     · rename_i u rest hu
+      have hu := lexUnary_some hu
       have hs := lexEnum_suffix hu
       have hlt := lexEnum_lt (by decide) hu
       split
